@@ -405,6 +405,7 @@ Definition evolve (P : rstate -> rstate -> Prop) (s s' : state) : Prop :=
   s_me s' = s_me s /\
   forall x t, tun s x = Some t ->
     exists t', tun s' x = Some t' /\ t_addrs t' = t_addrs t /\ t_local t' = t_local t /\ t_valid t' = t_valid t /\
+               (t_alive t = false -> t_alive t' = false) /\       (* a tunnel that left the hostmap never comes back *)
                forall r, In r (t_recs t) -> exists r', In r' (t_recs t') /\ rec_static r r' /\ P (r_st r) (r_st r').
 
 Lemma evolve_refl (P : rstate -> rstate -> Prop) s : (forall a, P a a) -> evolve P s s.
@@ -417,9 +418,9 @@ Lemma evolve_trans (P : rstate -> rstate -> Prop) s1 s2 s3 :
   (forall a b c, P a b -> P b c -> P a c) -> evolve P s1 s2 -> evolve P s2 s3 -> evolve P s1 s3.
 Proof.
   intros T [M1 H1] [M2 H2]. split; [congruence |]. intros x t E.
-  destruct (H1 x t E) as [t2 [E2 [A1 [A2 [A3 R1]]]]].
-  destruct (H2 x t2 E2) as [t3 [E3 [B1 [B2 [B3 R2]]]]].
-  exists t3. repeat split; try congruence. intros r Hr.
+  destruct (H1 x t E) as [t2 [E2 [A1 [A2 [A3 [A4 R1]]]]]].
+  destruct (H2 x t2 E2) as [t3 [E3 [B1 [B2 [B3 [B4 R2]]]]]].
+  exists t3. repeat split; try congruence; auto. intros r Hr.
   destruct (R1 r Hr) as [r2 [I2 [(S1 & S2 & S3 & S4 & S5) Q1]]].
   destruct (R2 r2 I2) as [r3 [I3 [(U1 & U2 & U3 & U4 & U5) Q2]]].
   exists r3. split; [exact I3 |]. split; [repeat split; congruence | eauto].
@@ -427,7 +428,7 @@ Qed.
 
 Lemma evolve_weaken (P Q : rstate -> rstate -> Prop) s s' : (forall a b, P a b -> Q a b) -> evolve P s s' -> evolve Q s s'.
 Proof.
-  intros W [M H]. split; [exact M |]. intros x t E. destruct (H x t E) as [t' [E' [A1 [A2 [A3 R]]]]].
+  intros W [M H]. split; [exact M |]. intros x t E. destruct (H x t E) as [t' [E' [A1 [A2 [A3 [A4 R]]]]]].
   exists t'. repeat split; auto. intros r Hr. destruct (R r Hr) as [r' [I' [S Q']]]. exists r'. auto.
 Qed.
 
@@ -435,7 +436,7 @@ Lemma frame_evolve (P : rstate -> rstate -> Prop) s s' : frame P s s' -> evolve 
 Proof.
   intros F. pose proof F as (Fme & _). split; [exact Fme |]. intros x t E.
   destruct (frame_tun_fwd _ _ _ _ _ F E) as [t' [E' (A1 & A2 & A3 & A4 & A5 & FA)]].
-  exists t'. repeat split; auto. intros r Hr.
+  exists t'. repeat split; auto; [congruence |]. intros r Hr.
   destruct (Forall2_in_l _ _ _ _ FA Hr) as [r' [I' [S Q]]]. exists r'. auto.
 Qed.
 
@@ -622,7 +623,7 @@ Proof.
     + apply N.eqb_eq in X. subst x. rewrite E3 in Ex3. inversion Ex3; subst tx3.
       exists (t_dead t3). simpl. repeat split; auto. intros r Hr.
       destruct (Forall2_in_l _ _ _ _ FAx Hr) as [r' [I' [S Q]]]. exists r'. auto.
-    + exists tx3. repeat split; auto. intros r Hr.
+    + exists tx3. repeat split; auto; [congruence |]. intros r Hr.
       destruct (Forall2_in_l _ _ _ _ FAx Hr) as [r' [I' [S Q]]]. exists r'. auto.
   - unfold kill. change (tun s4 h) with (tun s3 h). rewrite E3. simpl. congruence.
   - intros t0 _. rewrite TK, N.eqb_refl. eexists. split; [reflexivity | reflexivity].
